@@ -37,6 +37,7 @@ def variants_for(msg, asn4):
     out.append(('add-path-table-all-false', asn4, False, {'ap_table_explicit': True}, msg))
     out.append(('add-path-ipv4-others-false', asn4, [(1, 1)], {'path_id': 9, 'ap_table_explicit': True}, msg))
     out.append(('add-path', asn4, True, {'path_id': 7}, msg))
+    out.append(('add-path-id0', asn4, True, {'path_id': 0}, msg))        # path identifier 0 is a value like any other
     out.append(('add-path-ipv4', asn4, [(1, 1)], {'path_id': 4294967295}, msg))
     if not asn4 and codes and 17 not in codes:
         m2 = {k: v for k, v in msg.items()}
